@@ -2,7 +2,7 @@
 (***************************************************************************)
 (* C05 monitor.  One trace per operation of a generated package (or per    *)
 (* bundled stream helper):                                                 *)
-(*   [id, served, others : Seq(status), c, sh, sib - scenario of Gen_Reply *)
+(*   [id, served, others : Seq(status), c, sh, sib, desc - as Gen_Reply  *)
 (*    role : "primary" | "secondary" | "default" | "helper",               *)
 (*    via  : "method" | "helper:<function>",                               *)
 (*    ann  : Seq(kind) - what the REAL return annotation admits,           *)
@@ -33,14 +33,15 @@ Judge ==
          n    == Len(t.ev)
          ctx  == Ctx(t.role, t.c, t.sh, t.via)
          ann  == ToSet(t.ann)
-         sc   == [served |-> t.served, cell |-> [c |-> t.c, sh |-> t.sh], others |-> ToSet(t.others), sib |-> t.sib]
+         sc   == [served |-> t.served, cell |-> [c |-> t.c, sh |-> t.sh], others |-> ToSet(t.others), sib |-> t.sib, desc |-> t.desc]
          d    == Decl(sc)
+         ds   == DocSeq(sc)
          B(i) == t.ev[i].body
          G(i) == Got(t.ev[i].got)
          isMethod == t.via = "method"
          FA   == [i \in 1..n |-> Failures(ctx, B(i), ann, G(i))]
-         MO   == [i \in 1..n |-> IF isMethod THEN ModelOutcome("as_is", d, t.sib, t.served, B(i)) ELSE G(i)]
-         MF   == [i \in 1..n |-> IF isMethod THEN Failures(ctx, B(i), Ann("as_is", d), MO[i]) ELSE {}]
+         MO   == [i \in 1..n |-> IF isMethod THEN ModelOutcome("as_is", d, ds, t.sib, t.served, B(i)) ELSE G(i)]
+         MF   == [i \in 1..n |-> IF isMethod THEN Failures(ctx, B(i), Ann("as_is", d, ds), MO[i]) ELSE {}]
          Agg(FS, f) == LET idx == {i \in 1..n : f \in FS[i]} IN [clause |-> f.clause, locus |-> f.locus, n |-> Cardinality(idx), first |-> Min(idx)]
          AggAll(FS) == LET all == UNION {FS[i] : i \in 1..n} IN SetToSeq({Agg(FS, f) : f \in all})
          drift == {i \in 1..n : Project(G(i)) # Project(MO[i])}
@@ -48,11 +49,11 @@ Judge ==
          mode(i) == ExpectedReply(B(i)).mode
      IN PrintT("VERDICT " \o ToJson([
             id          |-> t.id,
-            wellformed  |-> (isMethod => (WellFormedScenario(sc) /\ t.role = RoleOf(d, t.served)
+            wellformed  |-> (isMethod => (WellFormedScenario(sc) /\ t.role = RoleOf(d, ds, t.served)
                                           /\ \A i \in 1..n : B(i) \in Bodies(t.c, t.sh, 2))),
             fails       |-> AggAll(FA),
             model_fails |-> AggAll(MF),
-            ann_drift   |-> (isMethod /\ ann # Ann("as_is", d)),
+            ann_drift   |-> (isMethod /\ ann # Ann("as_is", d, ds)),
             ndrift      |-> Cardinality(drift),
             drift_first |-> IF drift = {} THEN 0 ELSE Min(drift),
             ante |-> [calls    |-> n,
